@@ -1161,6 +1161,36 @@ func c13Sweep(g *hx.WireGen, grams []*hx.CmdGrammar, one func(i int, args []stri
 				}
 			}
 		}
+		// index-like arguments: the whole grid of small values instead of random draws
+		if ni := cg.SmallIntArgs(); ni >= 1 && ni <= 2 {
+			for _, f := range fams {
+				for _, a := range hx.SmallInts {
+					bs := []string{""}
+					if ni == 2 {
+						bs = hx.SmallInts
+					}
+					for _, b := range bs {
+						for _, setup := range sweepSetup[f] {
+							if !run(setup) {
+								return
+							}
+						}
+						g.Keys = sweepKeys[f][:1]
+						g.ResetKeySeq()
+						if ni == 2 {
+							g.SetIntSeq(a, b)
+						} else {
+							g.SetIntSeq(a)
+						}
+						vec := g.VectorOpts(cg, nil)
+						g.SetIntSeq()
+						if !run(vec) {
+							return
+						}
+					}
+				}
+			}
+		}
 		for _, f := range fams {
 			for _, which := range variants {
 				reps := 4
